@@ -1170,7 +1170,7 @@ bool World::exec_table_op(const Step& s)
             tt.update(*row);
         });
         note("t_rewrite " + std::to_string(id) + (o.threw ? " -> threw " + o.exc : " -> ok"));
-        if (o.threw)
+        if (o.threw && !o.fault_fired)
             report("C18", "C18|t_rewrite|" + F + "|threw", "writing back a row just read threw " + o.exc + ": " + o.what);
         finish("t_rewrite", o, id);
         return true;
@@ -1268,9 +1268,21 @@ bool World::exec_table_op(const Step& s)
         if (!sibs.empty() && (arg(1) & 1))
             next = sibs[(size_t)((uint64_t)arg(2) % sibs.size())];
         v2::playlist_row row{v2::PLAYLIST_ROW_ID_NONE, "pl" + std::to_string(++T.rowuniq), parent, !r.chance(1, 3), next, gen_tp(r, 5), !r.chance(1, 3)};
+        // one add in eight re-uses the title of a list under the same parent: (title, parent) is UNIQUE, so the call must
+        // be refused as a whole - in particular none of its re-link statements may stay behind
+        bool collide = false;
+        if (!atomic && !sibs.empty() && (arg(3) % 8) == 0)
+        {
+            row.title = T.lists[sibs[(size_t)((uint64_t)arg(3) / 8 % sibs.size())]].title;
+            collide = true;
+            probes.hit("p_add_colliding");
+        }
         int64_t id = 0;
         Outcome o = call(s.fault, [&] { id = pt.add(row); });
-        note("p_add under " + std::to_string(parent) + " before " + std::to_string(next) + (o.threw ? " -> threw " + o.exc : " -> id " + std::to_string(id)));
+        note("p_add under " + std::to_string(parent) + " before " + std::to_string(next) + (collide ? " (title taken)" : "") +
+             (o.threw ? " -> threw " + o.exc : " -> id " + std::to_string(id)));
+        if (!o.threw && collide)
+            report("C18", "C18|p_add|" + F + "|unique-collision-accepted", "add() of a list whose (title, parent) already exists returned normally");
         if (!o.threw)
         {
             T.lists[id] = {row.title, parent, row.is_persisted, row.is_explicitly_exported, row.last_edit_time};
@@ -1320,9 +1332,25 @@ bool World::exec_table_op(const Step& s)
             row->is_explicitly_exported = !row->is_explicitly_exported;
         if (arg(1) & 64)
             row->last_edit_time = gen_tp(r, 6);
+        // one update in eight takes the title of another list under the (new) parent: refused by UNIQUE(title, parent),
+        // typically in the LAST statement of a move
+        bool collide = false;
+        if (!atomic && ((arg(1) >> 7) % 3) == 0)
+        {
+            for (auto sib : T.order[new_parent])
+                if (sib != id)
+                {
+                    row->title = T.lists[sib].title;
+                    collide = true;
+                    probes.hit("p_update_colliding");
+                    break;
+                }
+        }
         row->parent_list_id = new_parent;
         row->next_list_id = new_next;
         Outcome o = call(s.fault, [&] { pt.update(*row); });
+        if (!o.threw && collide)
+            report("C18", "C18|p_update|" + F + "|unique-collision-accepted", "update() to a (title, parent) that already exists returned normally");
         note("p_update " + std::to_string(id) + " -> parent " + std::to_string(new_parent) + " before " + std::to_string(new_next) +
              (o.threw ? " -> threw " + o.exc + ": " + o.what : " -> ok"));
         if (!o.threw)
